@@ -12,7 +12,8 @@ Every hypothesis that the real generator does not establish is explicit and has 
 (`example`s below, computed with the model by `decide`; the harness reports the same inputs on the real code):
 `hygienic` (module names the body uses are imported and not hidden by a parameter), `StructArgOk`
 (`noNullableAlias`: python_types and python_client agree on which fields are optional), `nsPrefixFree`,
-`defaultsWellTyped` (a tag default is declared with the union itself, not through an alias), and
+`defaultsWellTyped` (a tag default is declared with the union itself, not through an alias), `defaultsPrintable`
+(no string default that pprint wraps), and
 `loadModule = ok` (no duplicate / keyword parameter).
 -/
 namespace StoneVerif.C14
@@ -23,10 +24,12 @@ open StoneVerif.DeclPyClient
 /-- The parameters python_client derives from a struct argument are exactly the ones the property text
 describes: the required fields in declaration order (super types first) without a default, then the optional
 ones in declaration order carrying the spec default (`None` for nullable fields). -/
-theorem struct_params_eq_spec (api : Api) (r : Ref) (hwt : defaultsWellTyped api r = true) :
+theorem struct_params_eq_spec (api : Api) (r : Ref) (hwt : defaultsWellTyped api r = true)
+    (hpr : defaultsPrintable api r = true) :
     (allFields stripFirst api r).mapM fieldParam = .ok (specParams api r) := by
   have h1 : (allFields stripFirst api r).mapM fieldParam = .ok ((allFields stripFirst api r).map specParam) :=
-    mapM_ok_of_forall _ _ _ (fun f hf => fieldParam_spec f (wellTyped_field hwt (mem_allFields.mp hf)))
+    mapM_ok_of_forall _ _ _ (fun f hf => fieldParam_spec f (wellTyped_field hwt (mem_allFields.mp hf))
+      (printable_field hpr (mem_allFields.mp hf)))
   rw [h1]
   congr 1
   unfold allFields specParams
@@ -50,12 +53,13 @@ theorem required_positional_optional_keyword (api : Api) (ns : Namespace) (r : R
     (sns sname : Name) (harg : specUnalias r.arg = .struct sns sname)
     (hstrip : stripFirst r.arg = .struct sns sname)
     (hwt : defaultsWellTyped api (sns, sname) = true)
+    (hpr : defaultsPrintable api (sns, sname) = true)
     (hm : routeMethod api ns r false = .ok m) :
     m.params = (if r.style = some "upload".toList then [⟨['f'], none⟩] else []) ++ specParams api (sns, sname) := by
   have _ := harg
   unfold routeMethod argParamsOf at hm
   rw [hstrip] at hm
-  simp only [struct_params_eq_spec api (sns, sname) hwt, Except.map] at hm
+  simp only [struct_params_eq_spec api (sns, sname) hwt hpr, Except.map] at hm
   cases hm
   simp [mkMethod, styleIs]
 
@@ -495,7 +499,7 @@ example : (pyClientMethods exApi).map (·.name) =
 -- every hypothesis of `client_call_builds_arg` holds of this instance
 example : withModule exApi (fun cm => cm.methods.all (hygienic cm) && (loadResult exApi cm == none)) = true := by decide
 example : noNullableAlias exApi (s "files", s "UploadArg") = true ∧ defaultsWellTyped exApi (s "files", s "UploadArg") = true ∧
-    nsPrefixFree exApi = true := by decide
+    defaultsPrintable exApi (s "files", s "UploadArg") = true ∧ nsPrefixFree exApi = true := by decide
 
 -- parameters: upload body, required fields (parents first), optional ones with their defaults
 example : withModule exApi (fun cm => (classAttr cm (s "files_upload_v2")).map (·.params) ==
@@ -539,6 +543,19 @@ def exDupF : Api :=
 
 example : withModule exDupF (fun cm => loadResult exDupF cm == some (.syntaxError (s "files_put") (s "duplicate"))) = true := by
   decide
+
+/-- a string default with a blank: `pprint.pformat(width=1)` wraps it, `emit` refuses the line, no client at all
+(python_types prints such defaults with `repr` since 0ee41ed) -/
+def exBlankDefault : Api :=
+  { namespaces := [{ name := s "b", dataTypes := [s "A"], aliases := [], routes :=
+      [{ name := s "r", version := 1, arg := .struct (s "b") (s "A"), result := .void, deprecated := none, style := none }] }]
+    structs := [{ ref := (s "b", s "A"), parent := none, fields :=
+      [⟨s "path", str, none⟩, ⟨s "label", str, some (.str (s "two words"))⟩] }] }
+
+example : (match pyClient exBlankDefault with | .error e => e == .multilineDefault (s "label") | .ok _ => false) = true ∧
+    defaultsPrintable exBlankDefault (s "b", s "A") = false := by decide
+example : pformatWraps (s "two_words ") = false ∧ pformatWraps (s " x") = true ∧ pformatWraps (s "a\n") = false ∧
+    pformatWraps (s "a\n ") = true ∧ pformatWraps (s "a\r\n") = false := by decide
 
 /-- a namespace with routes but no data types is never imported: `hygienic` fails, the call raises NameError -/
 def exNoImport : Api :=
